@@ -47,5 +47,4 @@ func discounts(nT, nV int) {
 	vf.Assert(vf.And(gotV.GT(sdk.ZeroDec()), gotV.LTE(sdk.OneDec())), "volume-discount-in-range")
 }
 
-func C07_Discounts()  { n := vf.Choice("shape", 4); discounts(n/2+0, n%2+1) }
-func C07T_Discounts() { discounts(2, 3) }
+func choice4() int { return vf.Choice("shape", 4) }
